@@ -338,6 +338,7 @@ func (t Table) matchingHosts(req *http.Request, globCache *GlobCache) (hosts []s
 // routing table which matches the normalized request hostname.
 func (t Table) matchingHostNoGlob(req *http.Request) (hosts []string) {
 	host := normalizeHostNoLower(req.Host, req.TLS != nil)
+	host = strings.ToLower(host) // host names are case-insensitive, patterns are compared lowercased
 
 	for pattern := range t {
 		normpat := normalizeHost(pattern, req.TLS != nil)
